@@ -11,13 +11,19 @@ for f in sorted(glob.glob(V + "/sweeps/C*.tsv")):
         if kind == "seed":
             m = os.path.join(V, "seeded", name, "meta.json")
             if os.path.exists(m):
-                needs = json.load(open(m)).get("needs_to_manifest", "")
+                meta = json.load(open(m))
+                needs = meta.get("needs_to_manifest", "")
+                if meta.get("note", "").startswith("superseded") and verdict != "VIOLATION":
+                    verdict = "SUPERSEDED"  # a later repair removed the code path the change lived in (meta.json says which)
         rows.append((pid, kind, name, verdict, key.replace("key=", ""), needs, by))
 out = ["| property | kind | change | result of `check <property> --mutant` | first violation key | needs, to manifest |", "|---|---|---|---|---|---|"]
 tot = {}
 other = 0
 for pid, kind, name, verdict, key, needs, by in rows:
-    res = {"VIOLATION": "caught", "HELD": "not caught", "INCONCLUSIVE": "inconclusive"}.get(verdict, verdict)
+    res = {"VIOLATION": "caught", "HELD": "not caught", "INCONCLUSIVE": "inconclusive", "SUPERSEDED": "no longer a break (superseded by a repair, see its meta.json)"}.get(verdict, verdict)
+    if verdict == "SUPERSEDED":
+        out.append("| %s | %s | %s | %s | `%s` | %s |" % (pid, kind, name, res, key, needs))
+        continue
     if by:
         res = "not by %s; caught by `check %s`" % (pid, by)
         other += 1
